@@ -249,9 +249,9 @@ Definition container_tr : bool := match fl c with FVec => true | _ => is_tr c en
 Definition R := ((vec * list aevent) + (exn * vec * list aevent))%type.
 
 (* adjustCapacity(needed) when [cond], then the new contents and setSize *)
-Definition grow_set (v : vec) (cond : bool) (needed newsize : Z) (els' : list Z) : R :=
+Definition grow_set (v : vec) (cond : bool) (newsize : Z) (els' : list Z) : R :=
   if cond then
-    match adjust c (w v) needed with
+    match adjust c (w v) newsize with
     | inr e => inr (e, v, [])
     | inl (w1, ev) => inl ({| w := b_setSize c w1 newsize; els := els' |}, ev)
     end
@@ -280,12 +280,12 @@ Fixpoint append_input (rollback : bool) (v0 v : vec) (ev : list aevent) (vs : li
   end.
 Definition append_range (v : vec) (k : rcat) (vs : list Z) : R :=
   match k with
-  | RFwd => grow_set v true (b_size c (w v) + len vs) (b_size c (w v) + len vs) (els v ++ vs)
+  | RFwd => grow_set v true (b_size c (w v) + len vs) (els v ++ vs)
   | RInp => append_input true v v [] vs
   end.
 Definition assign_range (v : vec) (k : rcat) (vs : list Z) : R :=
   match k with
-  | RFwd => grow_set v (b_size c (w v) <? len vs) (len vs) (len vs) vs
+  | RFwd => grow_set v (b_size c (w v) <? len vs) (len vs) vs
   | RInp =>
       let v0 := {| w := b_setSize c (w v) 0; els := [] |} in     (* clear() *)
       append_input false v0 v0 [] vs   (* assign: plain loop, basic guarantee only *)
@@ -295,25 +295,31 @@ Definition cmp_bits (a b : list Z) : list bool :=
   let eq := list_eqb a b in let lt := list_ltb a b in let gt := list_ltb b a in
   [eq; negb eq; lt; negb gt; gt; negb lt].
 
+Definition finish (p : pool) (a : nat) (r : R) (ok : res) : pool * res * list aevent :=
+  match r with
+  | inl (v', ev) => (set p a (Some v'), ok, ev)
+  | inr (e, v', ev) => (set p a (Some v'), RThrew e, ev)
+  end.
+(* a constructor that throws leaves no object (the storage base releases what had been allocated) *)
+Definition finish_ctor (p : pool) (a : nat) (pre : list aevent) (r : R) : pool * res * list aevent :=
+  match r with
+  | inl (v', ev) => (set p a (Some v'), ROk, pre ++ ev)
+  | inr (e, v', ev) => (set p a None, RThrew e, pre ++ ev ++ b_free c (w v'))
+  end.
+Definition dtor_events (p : pool) (a : nat) : list aevent := match get p a with Some v => b_free c (w v) | None => [] end.
+Definition on (p : pool) (a : nat) (f : vec -> pool * res * list aevent) : pool * res * list aevent :=
+  match get p a with Some v => f v | None => (p, RSkip, []) end.
+
 Definition step (p : pool) (o : op) : pool * res * list aevent :=
   let skip := (p, RSkip, []) in
-  let finish (a : nat) (r : R) (ok : res) :=
-    match r with
-    | inl (v', ev) => (set p a (Some v'), ok, ev)
-    | inr (e, v', ev) => (set p a (Some v'), RThrew e, ev)
-    end in
-  (* a constructor that throws leaves no object *)
-  let finish_ctor (a : nat) (pre : list aevent) (r : R) :=
-    match r with
-    | inl (v', ev) => (set p a (Some v'), ROk, pre ++ ev)
-    | inr (e, v', ev) => (set p a None, RThrew e, pre ++ ev ++ b_free c (w v'))
-    end in
-  let dtor_events (a : nat) := match get p a with Some v => b_free c (w v) | None => [] end in
-  let on (a : nat) (f : vec -> pool * res * list aevent) := match get p a with Some v => f v | None => skip end in
+  let finish := finish p in
+  let finish_ctor := finish_ctor p in
+  let dtor_events := dtor_events p in
+  let on := on p in
   match o with
   | CtorDefault a => (set p a (Some fresh), ROk, dtor_events a)
-  | CtorN a n => finish_ctor a (dtor_events a) (grow_set fresh true n n (rep n 0))
-  | CtorNV a n x => finish_ctor a (dtor_events a) (grow_set fresh true n n (rep n x))
+  | CtorN a n => if 0 <=? n then finish_ctor a (dtor_events a) (grow_set fresh true n (rep n 0)) else skip
+  | CtorNV a n x => if 0 <=? n then finish_ctor a (dtor_events a) (grow_set fresh true n (rep n x)) else skip
   | CtorRange a k vs => finish_ctor a (dtor_events a) (append_range fresh k vs)
   | CtorCopy a b =>
       if Nat.eqb a b then skip else
@@ -335,7 +341,7 @@ Definition step (p : pool) (o : op) : pool * res * list aevent :=
           let n := len vs in
           let srccap := if cap <=? n then n else cap in
           let wa := if srccap =? 0 then b_init c else {| capa_ := srccap; size_ := n |} in
-          (set p a (Some {| w := wa; els := vs |}), ROk, [])
+          if srccap <=? cM c then (set p a (Some {| w := wa; els := vs |}), ROk, []) else skip
       | _ => skip
       end
   | Dtor a => on a (fun v => (set p a None, ROk, b_free c (w v)))
@@ -356,14 +362,14 @@ Definition step (p : pool) (o : op) : pool * res * list aevent :=
   | InsertN a q n g =>
       on a (fun v => if (0 <=? q) && (q <=? len (els v)) && (0 <=? n) && arg_ok (els v) g
                      then finish a (if 0 <? n
-                                    then grow_set v true (b_size c (w v) + n) (b_size c (w v) + n) (insert_list q (rep n (argval (els v) g)) (els v))
+                                    then grow_set v true (b_size c (w v) + n) (insert_list q (rep n (argval (els v) g)) (els v))
                                     else inl (v, [])) (RIdx q)
                      else skip)
   | InsertRange a q k vs =>
       on a (fun v => if (0 <=? q) && (q <=? len (els v)) then
                        match k with
                        | RFwd => finish a (if 0 <? len vs
-                                           then grow_set v true (b_size c (w v) + len vs) (b_size c (w v) + len vs) (insert_list q vs (els v))
+                                           then grow_set v true (b_size c (w v) + len vs) (insert_list q vs (els v))
                                            else inl (v, [])) (RIdx q)
                        | RInp => (* append, then rotate into place *)
                            match append_input true v v [] vs with
@@ -391,17 +397,17 @@ Definition step (p : pool) (o : op) : pool * res * list aevent :=
   | Clear a => on a (fun v => (set p a (Some {| w := b_setSize c (w v) 0; els := [] |}), ROk, []))
   | Resize a n =>
       on a (fun v => if 0 <=? n
-                     then finish a (grow_set v (b_size c (w v) <? n) n n (take n (els v) ++ rep (n - len (els v)) 0)) ROk else skip)
+                     then finish a (grow_set v (b_size c (w v) <? n) n (take n (els v) ++ rep (n - len (els v)) 0)) ROk else skip)
   | ResizeV a n g =>
       on a (fun v => if (0 <=? n) && arg_ok (els v) g
-                     then finish a (grow_set v (b_size c (w v) <? n) n n (take n (els v) ++ rep (n - len (els v)) (argval (els v) g))) ROk
+                     then finish a (grow_set v (b_size c (w v) <? n) n (take n (els v) ++ rep (n - len (els v)) (argval (els v) g))) ROk
                      else skip)
   | AssignN a n g =>
       on a (fun v => if (0 <=? n) && arg_ok (els v) g
-                     then finish a (grow_set v (b_size c (w v) <? n) n n (rep n (argval (els v) g))) ROk else skip)
+                     then finish a (grow_set v (b_size c (w v) <? n) n (rep n (argval (els v) g))) ROk else skip)
   | AssignRange a k vs => on a (fun v => finish a (assign_range v k vs) ROk)
   | Reserve a n =>
-      on a (fun v => if 0 <=? n then
+      on a (fun v => if (0 <=? n) && (n <=? cM c) then
                        match fl c with
                        | FFCV => match exc_check n (b_capacity c (w v)) with
                                  | None => (p, RThrew OutOfRange, []) | Some _ => (p, ROk, []) end
@@ -415,10 +421,10 @@ Definition step (p : pool) (o : op) : pool * res * list aevent :=
                      else skip)
   | Shrink a => on a (fun v => let '(w1, ev) := b_shrink c (w v) in (set p a (Some {| w := w1; els := els v |}), ROk, ev))
   | AppendN a n =>
-      on a (fun v => if 0 <=? n then finish a (grow_set v true (b_size c (w v) + n) (b_size c (w v) + n) (els v ++ rep n 0)) ROk else skip)
+      on a (fun v => if 0 <=? n then finish a (grow_set v true (b_size c (w v) + n) (els v ++ rep n 0)) ROk else skip)
   | AppendNV a n g =>
       on a (fun v => if (0 <=? n) && arg_ok (els v) g
-                     then finish a (grow_set v true (b_size c (w v) + n) (b_size c (w v) + n) (els v ++ rep n (argval (els v) g))) ROk else skip)
+                     then finish a (grow_set v true (b_size c (w v) + n) (els v ++ rep n (argval (els v) g))) ROk else skip)
   | AppendRange a k vs => on a (fun v => finish a (append_range v k vs) ROk)
   | CopyAssign a b =>
       on a (fun v => match get p b with
@@ -464,10 +470,10 @@ Definition step (p : pool) (o : op) : pool * res * list aevent :=
   | Cmp a b =>
       on a (fun v => match get p b with None => skip | Some vb => (p, RCmp (cmp_bits (els v) (els vb)), []) end)
   | Relocate a b =>
-      if Nat.eqb a b || negb container_tr then skip else
+      if Nat.eqb a b then skip else
       on a (fun v => match get p b with
                      | Some _ => skip
-                     | None => (set (set p b (Some v)) a None, ROk, [])
+                     | None => if container_tr then (set (set p b (Some v)) a None, ROk, []) else skip
                      end)
   end.
 End Step.
